@@ -460,6 +460,9 @@ func (x *Engine) backEdge(fr *Frame, from, h *ssa.BasicBlock, st *State) {
 	}
 	env, hash := x.nameEnv(fr, h, ov)
 	pos := posOf(x.prog, from.Instrs[len(from.Instrs)-1].Pos())
+	// vacuity guard: the end of the loop body must be reachable under the assumed invariants
+	x.ordinals[fmt.Sprintf("loopcover%d", li.ord)]++
+	x.obls = append(x.obls, &Obl{Name: fmt.Sprintf("%s#cover[loop%d.body#%d]", x.curFn, li.ord, x.ordinals[fmt.Sprintf("loopcover%d", li.ord)]), Func: x.curFn, Kind: "cover", Label: "loop-body", Props: x.curProps, NScript: len(x.script), Goal: "false", Live: st.live, Text: "the end of the loop body is reachable", Expect: "sat"})
 	for i, c := range ls.Invs {
 		ev := &Eval{x: x, st: st, old: fr.entry, env: env, hash: hash, pkg: fr.fn.Pkg}
 		g := x.safeEvalBool(ev, c)
@@ -484,9 +487,16 @@ func (x *Engine) safeEvalBool(ev *Eval, c *Clause) (res string) {
 }
 
 // writeSet: state components a loop may write (conservative, syntactic).
+// freshIn: v denotes an object allocated by an instruction for which inScope holds (i.e. inside the loop being
+// summarised, or anywhere in a callee invoked from it). Objects allocated before the loop are NOT fresh for it.
+var freshScope func(ssa.Instruction) bool
+
 func isFreshBase(v ssa.Value) bool {
 	switch a := v.(type) {
 	case *ssa.Alloc, *ssa.MakeSlice, *ssa.MakeMap, *ssa.MakeClosure:
+		if freshScope != nil {
+			return freshScope(a.(ssa.Instruction))
+		}
 		return true
 	case *ssa.FieldAddr:
 		return isFreshBase(a.X)
@@ -747,6 +757,11 @@ func (x *Engine) writeSet(fr *Frame, li *loopInfo) (map[string]bool, map[string]
 		}
 	}
 	keys = arb
+	freshScope = func(i ssa.Instruction) bool {
+		// allocations of the loop's own function count only when they happen inside the loop
+		return i.Parent() != fr.fn || li.blocks[i.Block()]
+	}
+	defer func() { freshScope = nil }()
 	for _, b := range fr.fn.Blocks {
 		if !li.blocks[b] {
 			continue
